@@ -3,7 +3,7 @@ import json, re
 from .. import core
 from . import stackcommon as sc
 
-EMITS = set("S V Q G A P PM R X E B ST CB TXT RACE VR NS STORM".split())
+EMITS = set("S V Q G A P PM R X E B ST CB TXT RACE VR NS STORM STALL".split())
 
 ADV_SETUP = ["wrongcode", "wrongproof", "noproof", "a0", "aN", "a2N", "aempty", "m5first", "start", "m3wrong", "m5zerokey",
              "m5randkey", "badstep", "badmethod", "garbage", "aNforged", "a0forged", "aemptyforged", "wrongcodezero", "m5zeroempty", "m5emptyhkdf"]
